@@ -381,12 +381,19 @@ def stateTimeout (s : Core) (app : String) : Core :=
 
 /-! ### node removal -/
 
-/-- DeallocateAsk(key): the ask is outstanding again; `other` is the item at the far end of the replacement link, which is
+/-- DeallocateAsk(key): the ask is outstanding again (a Completing application runs again); `other` is the item at the far end of the replacement link, which is
     cleared on both sides -/
 def deallocApp (key other : String) (r : CItem) (a : CApp) : CApp :=
   { a with items := updItem other (fun x => { x with release := none })
                       (updItem key (fun x => { x with allocated := false, release := none }) a.items),
            pending := addX a.pending r.res }
+
+/-- as for a new ask: a Completing application has something to schedule again (Application.DeallocateAsk) -/
+def runAgain (a : CApp) : CApp :=
+  if a.state == "Completing" then setState a (fireState a.state .run) else a
+
+/-- Application.DeallocateAsk as the partition calls it: the ask is outstanding again and a Completing application runs again -/
+def deallocAppRun (key other : String) (r : CItem) (a : CApp) : CApp := runAgain (deallocApp key other r a)
 
 def unlinkApp (k1 k2 : String) (a : CApp) : CApp :=
   { a with items := updItem k2 (fun x => { x with release := none }) (updItem k1 (fun x => { x with release := none }) a.items) }
@@ -445,13 +452,13 @@ def nodeRmAlloc (c : Core) (nodeId app key : String) : Core :=
             else
               -- same node: the replacement is reversed (links cleared, the real ask outstanding again), then the
               -- placeholder is released like any allocation of the node
-              let c1 := if r.inReq && r.allocated then updQueues (updApp c app (deallocApp rk key r)) chain (qIncPend r.res)
+              let c1 := if r.inReq && r.allocated then updQueues (updApp c app (deallocAppRun rk key r)) chain (qIncPend r.res)
                         else updApp c app (unlinkApp rk key)
               nodeRmBound c1 app key
         else
           -- the real half of a replacement parked on this node: reversed; the placeholder stays where it is
           if i.inReq && i.allocated then
-            let c1 := updQueues (updApp c app (deallocApp key rk i)) chain (qIncPend i.res)
+            let c1 := updQueues (updApp c app (deallocAppRun key rk i)) chain (qIncPend i.res)
             nodeRmBound c1 app key
           else nodeRmBound (updApp c app (unlinkApp rk key)) app key
 
